@@ -6,7 +6,7 @@ import re
 from codecs import register_error, xmlcharrefreplace_errors
 
 from .constants import voidElements, booleanAttributes, spaceCharacters
-from .constants import rcdataElements, entities, xmlEntities
+from .constants import rcdataElements, entities, xmlEntities, namespaces
 from . import treewalkers, _utils
 from xml.sax.saxutils import escape
 
@@ -294,7 +294,9 @@ class HTMLSerializer(object):
             elif type in ("StartTag", "EmptyTag"):
                 name = token["name"]
                 yield self.encodeStrict("<%s" % name)
-                if name in rcdataElements and not self.escape_rcdata:
+                if (name in rcdataElements and not self.escape_rcdata and
+                        token.get("namespace") in (None, namespaces["html"])):
+                    # (an SVG or MathML element of that name is not raw text)
                     in_cdata = True
                 elif in_cdata:
                     self.serializeError("Unexpected child element of a CDATA element")
@@ -346,7 +348,8 @@ class HTMLSerializer(object):
 
             elif type == "EndTag":
                 name = token["name"]
-                if name in rcdataElements:
+                if (name in rcdataElements and
+                        token.get("namespace") in (None, namespaces["html"])):
                     in_cdata = False
                 elif in_cdata:
                     self.serializeError("Unexpected child element of a CDATA element")
